@@ -31,6 +31,8 @@ func init() {
 			{ID: "C07.9", Desc: "an unsafe request whose target has percent-encoded dot segments invalidates the entry of the plain spelling (decode before dot-segment removal)", Run: func(c *Ctx) { ruleDotAfterDecode(c, "C07.9") }, MinSites: 1},
 			{ID: "C07.10", Desc: "unreserved escapes are decoded by the predicate alone (equivalent spellings of the target share the key)", Run: func(c *Ctx) { ruleDecodeByPredicateOnly(c, "C07.10") }, MinSites: 1},
 			{ID: "C07.11", Desc: "the background revalidation reads its copy of the entry after the origin answered (an invalidation in between is not undone)", Run: func(c *Ctx) { ruleBackgroundReadsAfterOrigin(c, "C07.11") }, MinSites: 1},
+			{ID: "C07.12", Desc: "invalidation of a Location / Content-Location target deletes the entries its list names on every path", Run: func(c *Ctx) { ruleIndexDeleteAfterEntries(c, "C07.12") }, MinSites: 1},
+			{ID: "C07.13", Desc: "invalidation visits every reference of the list (any variant)", Run: func(c *Ctx) { ruleRefEnumeratorVisitsAll(c, "C07.13") }, MinSites: 1},
 		},
 	})
 }
